@@ -478,6 +478,15 @@ struct SrvEngine : public Engine
          if (flags & (1u<<SETDATANODE_FLAG_QUIET)) taintAllButSelf();
          (void) before;
       }
+      else if ((op == "setm")&&(t.size() >= 4))
+      {
+         // setm <slot> <path> <v> [<v> ...]: ONE PR_COMMAND_SETDATA whose field <path> holds several payloads (the server
+         // sets them one after the other, without flushing the subscribers' pending updates in between)
+         if (inBatch[si]) return "bad-op";
+         std::string path; if (!unhex(t[2], path)) return "bad-op";
+         m = GetMessageFromPool(PR_COMMAND_SETDATA);
+         for (size_t k=3; k<t.size(); k++) {uint64_t v; if (!toU64(t[k], v)) return "bad-op"; MessageRef pay = GetMessageFromPool(0); (void) pay()->AddInt32("v", (int32)v); (void) m()->AddMessage(MS(path), pay);}
+      }
       else if ((op == "rm")&&(t.size() >= 4))
       {
          uint64_t quiet; if (!toU64(t[2], quiet)) return "bad-op";
